@@ -108,6 +108,13 @@ def run_all(prog):
     os.dup2(devnull, 1)
     os.dup2(devnull, 2)
     try:
+        if prog.get("prelude"):
+            # another example was run in this process before (its configuration must not leak into the next one)
+            from inline_snapshot.testing import Example
+            try:
+                Example(PRELUDE).run_inline(["--inline-snapshot=fix"])
+            except BaseException:  # noqa
+                pass
         return {"inline": run_inline(prog), "helper": run_helper_pytest(prog), "raw": run_raw(prog)}
     finally:
         sys.stdout.flush()
@@ -116,6 +123,10 @@ def run_all(prog):
         os.dup2(saved[1], 2)
         for fd in (*saved, devnull):
             os.close(fd)
+
+
+PRELUDE = {"pyproject.toml": '[tool.inline-snapshot]\nformat-command = "/venv/bin/python -m black -q -"\n',
+           "test_pre.py": "from inline_snapshot import snapshot\n\n\ndef test_p():\n    assert 2 == snapshot(1)\n"}
 
 
 def classify(prog, o):
@@ -152,6 +163,15 @@ def run(ctx: Ctx):
            "    assert \"a'b\\\"c\" == snapshot(\"a'b\\\"c\")\n    assert [(2,)] == snapshot([(2,)])\n    assert 0x10 == snapshot(16)\n")
     for fl in ((), ("update",), ("fix", "update")):
         progs.append({"source": ODD, "files": {"test_something.py": ODD}, "flags": fl, "sites": [1, 2, 3], "rich": False, "odd": True})
+    # pytest collects `*_test.py` as well as `test_*.py`
+    NAMING = {"test_something.py": "from inline_snapshot import snapshot\n\n\ndef test_a():\n    assert 1 == snapshot(2)\n",
+              "check_test.py": "from inline_snapshot import snapshot\n\n\ndef test_b():\n    assert [1, 2] == snapshot()\n    assert 5 == snapshot(4)\n"}
+    for fl in (("create",), ("create", "fix"), ()):
+        progs.append({"source": NAMING["test_something.py"], "files": dict(NAMING), "flags": fl, "sites": [1, 2, 3], "rich": False})
+    # an example with its own configuration (format-command) was run in the same process before: the next example (no pyproject.toml, hand-written layout) is not affected
+    LOOSE = "from inline_snapshot import snapshot\n\n\ndef test_a( ):\n    x = [1,2,\n      3]\n    assert x   ==   snapshot([1,2])\n    assert {'a':1} == snapshot({'a':2})\n"
+    for fl in (("fix",), ("create", "fix", "trim", "update")):
+        progs.append({"source": LOOSE, "files": {"test_something.py": LOOSE}, "flags": fl, "sites": [1, 2], "rich": False, "prelude": True})
     outs = pmap(run_all, progs, procs=12, chunksize=1)
     terms = []
     for p, o in zip(progs, outs):
@@ -173,7 +193,7 @@ def run(ctx: Ctx):
         elif not (ci == ch == cr):
             why = f"reported categories differ: run_inline {ci}, run_pytest {ch}, raw pytest {cr}"
         if why:
-            ctx.report("C19 oracle: " + why, {"kind": "proj", "source": p["source"], "files": p.get("files"), "flags": p["flags"], "inline": fi, "raw": fr}, tag=classify(p, o))
+            ctx.report("C19 oracle: " + why, {"kind": "proj", "source": p["source"], "files": p.get("files"), "flags": p["flags"], "inline": fi, "raw": fr, "prelude": p.get("prelude")}, tag=classify(p, o))
             continue
         # which categories were applied (pending and the file changed accordingly) vs the model of both drivers
         pend = {c: c in cr for c in CATS}
@@ -191,7 +211,7 @@ def replay(ctx: Ctx, data):
     c = data["case"]
     if c.get("kind") != "proj":
         return True
-    o = run_all({"source": c["source"], "files": c.get("files"), "flags": tuple(c["flags"])})
+    o = run_all({"source": c["source"], "files": c.get("files"), "flags": tuple(c["flags"]), "prelude": c.get("prelude")})
     if any("error" in v for v in o.values()):
         print(o)
         return False
